@@ -42,6 +42,20 @@ CHECKS = [
         "Trusted: Coq kernel + vm_compute, Model/WalkPar.v, Model/Reducer.v, harness/detsched.py fakes; fairness for "
         "termination; Empty only on an empty pipe.",
         "machine-checked proof (Coq) + trace correspondence under a deterministic scheduler", "DESIGN.md section 5, C01"),
+    chk("C10",
+        "Coq theorems over a Gallina LTS of PyramidIO.update_image's protocol (try-acquire of the soft file lock, read, "
+        "in-place write with a Partial window, release) for ANY number of updaters, arbitrary update functions on an "
+        "abstract tile type, arbitrary initial file and every schedule: mutual exclusion (lock_mutex), a read under the "
+        "lock never sees a partial tile (lock_no_partial_read), when all are done the tile equals all updates applied one "
+        "after another in acquisition order — a permutation of the updaters, none missing — and the lock is free "
+        "(lock_linearizable), no deadlock, bounded progress. Tie to /repo: real update_image bodies run as scheduler-driven "
+        "actors on the real lock and tile files (sync points injected from the harness only), traces replayed on the LTS in "
+        "Coq, final pixels compared with the sequential application in the model's acquisition order; plus a real-process "
+        "stress run.",
+        "Trusted: Coq kernel + vm_compute, Model/Lock.v, harness/detsched.py, filelock.SoftFileLock's atomic exclusive create; "
+        "threads contend through the lock file as processes do; fairness for termination.",
+        "machine-checked proof (Coq invariant over an LTS) + trace correspondence on the real lock/tile files",
+        "DESIGN.md section 5, C10"),
     chk("C19",
         "The faithful LTS models of the current code refute the property (Coq theorems c19_visit_returns_normally_refuted, "
         "c19_visit_hangs_refuted/deadlock, c19_walk_hangs_refuted, each a concrete schedule evaluated by the kernel); the "
